@@ -268,11 +268,13 @@ def explore(ctx):
                 dec = lambda t: "".join(chr(int(x)) for x in t.replace("\n", " ").split(";") if x.strip())
                 bad.append((int(m.group(1)), dec(m.group(2)), dec(m.group(3))))
             bad = sorted(set(bad))
-            unexplained = [x for x in bad if not (x[0] == 1 and case["writer"] == "kernFeatureWriter" and f10_explains(desc, spy, x[1], x[2]))]
+            # F10 drops a whole rule; the pair then gets 0 (code 1) or the value of a less specific rule that the
+            # dropped one was an exception to (code 2)
+            unexplained = [x for x in bad if not (x[0] in (1, 2) and case["writer"] == "kernFeatureWriter" and f10_explains(desc, spy, x[1], x[2]))]
             codes = {1: "eligible pair does not get the UFO value", 2: "value is neither 0 nor the UFO value",
                      3: "adjustment applied by more than one lookup", 4: "x-placement wrong for the script direction"}
             if bad and not unexplained:
-                ctx.spec_failure(dict(case, pairs=bad[:6]), "pairs %r get 0: every rule covering them mixes R and L bidi glyphs" % (bad[:4],),
+                ctx.spec_failure(dict(case, pairs=bad[:6]), "pairs %r miss the UFO value: a rule covering them mixes R and L bidi glyphs and was dropped whole" % (bad[:4],),
                                  signature=F10_SIG)
             else:
                 ctx.spec_failure(dict(case, pairs=(unexplained or bad)[:8], coq_output=None if bad else txt[-1500:]),
